@@ -335,8 +335,9 @@ class Program:
                 if im is None:
                     raise ExecError("impl at %r not found in rustdoc json (%s)" % (key, name))
                 if "::" in meth:
-                    # nested item inside a method (const, fn); register as free
+                    # nested item inside a method (const, fn); register as free, also under parent::name
                     self.free.setdefault(meth.split("::")[-1], []).append(f)
+                    self.free.setdefault("::".join(meth.split("::")[-2:]), []).append(f)
                     continue
                 if im["trait"]:
                     k3 = (im["trait"], im["for"], meth)
